@@ -69,14 +69,18 @@ pub enum Cmd {
     /// WebSocket frame or an HTTP body can contain): the text after the line feed must never be executed,
     /// here or on another node
     SetWithLineFeed,
+    /// `election <neither win nor candidate> <name>` (the parser reads it as "a node is alive"), the name followed
+    /// by a line feed and an administrative replication command: like every election command it is for
+    /// administrators (the nodes), and the text after the line feed must never be executed on any node
+    ElectionOtherWithLineFeed,
 }
 
-pub const ALL_CMDS: [Cmd; 36] = [
+pub const ALL_CMDS: [Cmd; 37] = [
     Cmd::Get, Cmd::GetSafe, Cmd::Set, Cmd::SetSafe, Cmd::Remove, Cmd::Increment, Cmd::Watch, Cmd::Keys, Cmd::Arbiter, Cmd::Resolve,
     Cmd::CreateDb, Cmd::Snapshot, Cmd::SnapshotNamed, Cmd::CreateUser, Cmd::SetPermissions, Cmd::ClusterState, Cmd::MetricsState,
     Cmd::DebugListDbs, Cmd::DebugPendingOps, Cmd::Join, Cmd::Leave, Cmd::SetPrimary, Cmd::SetSecoundary, Cmd::ElectionWin,
     Cmd::ElectionCandidate, Cmd::Replicate, Cmd::ReplicateRemove, Cmd::ReplicateIncrement, Cmd::ReplicateSnapshot, Cmd::ReplicateJoin,
-    Cmd::ReplicateLeave, Cmd::ReplicateSince, Cmd::Ack, Cmd::RpSet, Cmd::ListCommands, Cmd::SetWithLineFeed,
+    Cmd::ReplicateLeave, Cmd::ReplicateSince, Cmd::Ack, Cmd::RpSet, Cmd::ListCommands, Cmd::SetWithLineFeed, Cmd::ElectionOtherWithLineFeed,
 ];
 
 #[derive(Clone, Debug, Serialize, Deserialize, PartialEq)]
@@ -261,6 +265,7 @@ fn line(cmd: &Cmd, key: &str, uniq: u32) -> String {
         Cmd::RpSet => format!("rp 5 set {} viarp{}", key, uniq),
         Cmd::ListCommands => "list-commands".to_string(),
         Cmd::SetWithLineFeed => format!("set {} lf{}\nreplicate d $$sec 99 injected{}", if key.starts_with("$$") { "ka" } else { key }, uniq, uniq),
+        Cmd::ElectionOtherWithLineFeed => format!("election alive 10.9.9.9:3014\nreplicate d $$sec 99 injected{}", uniq),
     }
 }
 
@@ -295,7 +300,7 @@ fn need(cmd: &Cmd) -> Need {
 fn disruptive(cmd: &Cmd) -> bool {
     matches!(
         cmd,
-        Cmd::Join | Cmd::Leave | Cmd::SetPrimary | Cmd::SetSecoundary | Cmd::ElectionWin | Cmd::ElectionCandidate | Cmd::ReplicateJoin | Cmd::ReplicateLeave | Cmd::ReplicateSince
+        Cmd::Join | Cmd::Leave | Cmd::SetPrimary | Cmd::SetSecoundary | Cmd::ElectionWin | Cmd::ElectionCandidate | Cmd::ReplicateJoin | Cmd::ReplicateLeave | Cmd::ReplicateSince | Cmd::ElectionOtherWithLineFeed
     )
 }
 
@@ -447,7 +452,7 @@ fn run_wire_sessions(w: &World, own: &Arc<Databases>, prog: &Program, perms: &Op
             if allowed && (disruptive(cmd) || matches!(cmd, Cmd::SetPermissions)) {
                 continue;
             }
-            if *cmd == Cmd::SetWithLineFeed && ws.transport == Transport::Tcp {
+            if matches!(cmd, Cmd::SetWithLineFeed | Cmd::ElectionOtherWithLineFeed) && ws.transport == Transport::Tcp {
                 // over TCP a line feed ends the command: that is two commands, not one value
                 continue;
             }
